@@ -20,6 +20,14 @@
 //! first sampled position is judged both ways (honest circuit re-used / circuit rebuilt); if the
 //! two differ the kind is a shape kind and is always rebuilt.
 //!
+//! Prover-side forgeries (`c01_forge_prover.rs`, `ForgeSpec`): single-element alterations never make an
+//! algebraic check the only failing one (everything is transcript- / Merkle-bound), so for every uni
+//! and batch target an adversarial prover also proves *false statements* (altered trace cell / public
+//! value, shifted lookup terminals, altered auxiliary-trace or quotient cell); the forged proof is
+//! judged natively, by a circuit rebuilt for it and by the honest proof's circuit. Replay
+//! `{target, forge}`. The checks seen decisive there are compared with the model's check list
+//! (`checks …` case lines / `chk …` answers).
+//!
 //! Model correspondence: for every target the harness writes the proof *shape* as a case line for
 //! `p3r_driver_c01` and, as the implementation's answer, (a) the inventory of proof elements
 //! (number of numeric leaves per element class, counted on the serialised real proof) and (b) the
@@ -33,10 +41,15 @@ use std::sync::{Arc, Mutex};
 
 use p3_air::{Air, AirBuilder, BaseAir, WindowAccess};
 use p3_field::{Field, PrimeCharacteristicRing};
+use p3_lookup::{Count, InteractionBuilder};
 use p3_matrix::dense::RowMajorMatrix;
 use serde_json::{Value, json};
 
 use crate::rng::Rng;
+
+/// The adversarial batch prover (see the header of that file).
+#[path = "c01_forge_prover.rs"]
+pub mod forge_prover;
 
 // ------------------------------------------------------------------------------------------
 // verdicts
@@ -107,7 +120,118 @@ pub fn variant(s: &str) -> String {
     if t.is_empty() { s.chars().take(40).collect() } else { t }
 }
 
+/// First two identifiers of a `Debug` rendering: `Lookup(TerminalSumNonZero)` → `Lookup/TerminalSumNonZero`.
+pub fn variant2(s: &str) -> String {
+    let a = variant(s);
+    let rest = &s[a.len().min(s.len())..];
+    let rest = rest.trim_start_matches(|c: char| c == '(' || c == '{' || c == ' ');
+    let b: String = rest.chars().take_while(|c| c.is_alphanumeric() || *c == '_').collect();
+    if b.is_empty() { a } else { format!("{a}/{b}") }
+}
+
 pub type RunFn = Box<dyn Fn(&Value) -> Circ>;
+
+// ------------------------------------------------------------------------------------------
+// prover-side forgeries
+
+/// What the adversarial prover is asked to do (identifier syntax: `kind:args`).
+#[derive(Clone, Debug, PartialEq)]
+pub enum ForgeSpec {
+    /// `none`: honest (drift check of the prover copy)
+    None,
+    /// `trace:i:cell:delta` — add `delta` to one cell of instance `i`'s trace before proving
+    Trace(usize, usize, u64),
+    /// `pv:i:k` — prove (and claim) a public value that is off by one
+    Pv(usize, usize),
+    /// `tpair:i:j` — commit terminal_i + 1 and terminal_j - 1 (the sum is unchanged)
+    TerminalPair(usize, usize),
+    /// `tone:i` — commit terminal_i + 1
+    TerminalOne(usize),
+    /// `perm:i:cell` — add one to a cell of the auxiliary (LogUp) trace of instance `i`
+    Perm(usize, usize),
+    /// `quot:i:cell` — add one to a value of the quotient of instance `i`
+    Quot(usize, usize),
+}
+
+impl ForgeSpec {
+    pub fn parse(id: &str) -> Option<Self> {
+        let p: Vec<&str> = id.split(':').collect();
+        let n = |k: usize| -> Option<usize> { p.get(k)?.parse().ok() };
+        Some(match *p.first()? {
+            "none" => ForgeSpec::None,
+            "trace" => ForgeSpec::Trace(n(1)?, n(2)?, n(3).unwrap_or(1) as u64),
+            "pv" => ForgeSpec::Pv(n(1)?, n(2)?),
+            "tpair" => ForgeSpec::TerminalPair(n(1)?, n(2)?),
+            "tone" => ForgeSpec::TerminalOne(n(1)?),
+            "perm" => ForgeSpec::Perm(n(1)?, n(2)?),
+            "quot" => ForgeSpec::Quot(n(1)?, n(2)?),
+            _ => return None,
+        })
+    }
+}
+
+/// Every forgery identifier of a batch (trace value counts, public value counts, lookup counts per
+/// instance), in a fixed order. `main` takes a subset in the quick tier.
+pub fn forge_ids(trace_lens: &[usize], pv_lens: &[usize], n_lookups: &[usize]) -> Vec<String> {
+    let mut out = vec![];
+    for (i, &len) in trace_lens.iter().enumerate() {
+        for c in 0..len {
+            out.push(format!("trace:{i}:{c}:1"));
+        }
+    }
+    for (i, &n) in pv_lens.iter().enumerate() {
+        for k in 0..n {
+            out.push(format!("pv:{i}:{k}"));
+        }
+    }
+    let with: Vec<usize> = n_lookups.iter().enumerate().filter(|(_, n)| **n > 0).map(|(i, _)| i).collect();
+    for w in with.windows(2) {
+        out.push(format!("tpair:{}:{}", w[0], w[1]));
+        out.push(format!("tpair:{}:{}", w[1], w[0]));
+    }
+    for &i in &with {
+        out.push(format!("tone:{i}"));
+        for c in [0usize, 1, 2, 3, 5, 1_000_003] {
+            out.push(format!("perm:{i}:{c}"));
+        }
+    }
+    for i in 0..trace_lens.len() {
+        for c in [0usize, 3, 1_000_003] {
+            out.push(format!("quot:{i}:{c}"));
+        }
+    }
+    out
+}
+
+/// Quick tier: per instance the first, middle and last trace cell plus one seeded cell; two cells
+/// of the auxiliary trace; one quotient cell; every public value / terminal forgery.
+pub fn forge_quick_subset(ids: &[String], rng: &mut Rng) -> Vec<String> {
+    let mut by_inst: BTreeMap<usize, Vec<usize>> = BTreeMap::new();
+    for id in ids {
+        if let Some(ForgeSpec::Trace(i, c, _)) = ForgeSpec::parse(id) {
+            by_inst.entry(i).or_default().push(c);
+        }
+    }
+    let mut keep: Vec<(usize, usize)> = vec![];
+    for (i, cells) in &by_inst {
+        let n = cells.len();
+        for c in [0, n / 2, n - 1, rng.usize(n)] {
+            if !keep.contains(&(*i, c)) {
+                keep.push((*i, c));
+            }
+        }
+    }
+    ids.iter()
+        .filter(|id| match ForgeSpec::parse(id) {
+            Some(ForgeSpec::Trace(i, c, _)) => keep.contains(&(i, c)),
+            Some(ForgeSpec::Perm(_, c)) => c == 0 || c == 1_000_003,
+            Some(ForgeSpec::Quot(_, c)) => c == 3,
+            Some(_) => true,
+            None => false,
+        })
+        .cloned()
+        .collect()
+}
 
 /// One real proof + the real native verifier + the real circuit builder for it.
 pub struct Target {
@@ -127,6 +251,13 @@ pub struct Target {
     pub transcript: String,
     /// `(cpow bits, qpow bits)` of the FRI parameters (for the element inventory).
     pub pow_bits: (usize, usize),
+    /// Prover-side forgeries (batch targets): identifiers understood by `forge`.
+    pub forge_ids: Vec<String>,
+    /// Run the adversarial prover (`forge_prover`) on the forgery `id`; the result has the layout of
+    /// `honest`. `Err`: the prover itself refused (panicked).
+    pub forge: Option<Box<dyn Fn(&str) -> Result<Value, String>>>,
+    /// `Some(msg)`: the adversarial prover with nothing forged does not reproduce the stock prover's proof.
+    pub drift: Option<String>,
 }
 
 // ------------------------------------------------------------------------------------------
@@ -329,12 +460,36 @@ where
     }
 }
 
+/// Name of the global LogUp bus of the lookup AIRs below.
+pub const BUS: &str = "c01_bus";
+
 /// One AIR type for a heterogeneous batch.
 #[derive(Clone, Copy)]
 pub enum DemoAir {
     Fib,
     Add(AddAir),
     Mul(MulAir),
+    /// One column; every row puts `(col0)` on the global bus with the constant multiplicity `sign`
+    /// (`+1` sends, `-1` receives). No other constraint.
+    Bus { sign: i32, open_next: bool },
+    /// Two columns `[v, m]`; every row receives `(v)` from the global bus `m` times (multiplicity
+    /// column, as a lookup table does).
+    Table,
+    /// Two columns `[a, b]`; a *local* lookup: column `b` is a permutation of column `a`.
+    Perm,
+}
+
+pub fn bus_trace<V: Field>(rows: usize, modulo: usize, offset: usize) -> RowMajorMatrix<V> {
+    RowMajorMatrix::new((0..rows).map(|r| V::from_usize(r % modulo + offset)).collect(), 1)
+}
+
+/// Table of the values `0..rows`, each received `mult` times.
+pub fn table_trace<V: Field>(rows: usize, mult: usize) -> RowMajorMatrix<V> {
+    RowMajorMatrix::new((0..rows).flat_map(|r| [V::from_usize(r), V::from_usize(mult)]).collect(), 2)
+}
+
+pub fn perm_trace<V: Field>(rows: usize) -> RowMajorMatrix<V> {
+    RowMajorMatrix::new((0..rows).flat_map(|r| [V::from_usize(r + 10), V::from_usize((r + 3) % rows + 10)]).collect(), 2)
 }
 
 impl<V: Field> BaseAir<V> for DemoAir {
@@ -343,6 +498,8 @@ impl<V: Field> BaseAir<V> for DemoAir {
             DemoAir::Fib => 2,
             DemoAir::Add(a) => BaseAir::<V>::width(a),
             DemoAir::Mul(a) => BaseAir::<V>::width(a),
+            DemoAir::Bus { .. } => 1,
+            DemoAir::Table | DemoAir::Perm => 2,
         }
     }
     fn num_public_values(&self) -> usize {
@@ -368,6 +525,9 @@ impl<V: Field> BaseAir<V> for DemoAir {
             DemoAir::Fib => vec![0, 1],
             DemoAir::Add(a) => BaseAir::<V>::main_next_row_columns(a),
             DemoAir::Mul(a) => BaseAir::<V>::main_next_row_columns(a),
+            DemoAir::Bus { open_next, .. } => if *open_next { vec![0] } else { vec![] },
+            DemoAir::Table => vec![0, 1],
+            DemoAir::Perm => vec![],
         }
     }
     fn preprocessed_next_row_columns(&self) -> Vec<usize> {
@@ -378,7 +538,7 @@ impl<V: Field> BaseAir<V> for DemoAir {
     }
 }
 
-impl<AB: AirBuilder> Air<AB> for DemoAir
+impl<AB: AirBuilder + InteractionBuilder> Air<AB> for DemoAir
 where
     AB::F: Field,
 {
@@ -387,6 +547,28 @@ where
             DemoAir::Fib => p3_circuit::test_utils::FibonacciAir {}.eval(builder),
             DemoAir::Add(a) => a.eval(builder),
             DemoAir::Mul(a) => a.eval(builder),
+            DemoAir::Bus { sign, .. } => {
+                let main = builder.main();
+                let v: AB::Expr = main.current_slice()[0].into();
+                builder.push_interaction(BUS, [v], Count::<AB::Expr>::from(*sign));
+            }
+            DemoAir::Table => {
+                let main = builder.main();
+                let row = main.current_slice();
+                let v: AB::Expr = row[0].into();
+                let m: AB::Expr = row[1].into();
+                builder.push_interaction(BUS, [v], Count::provided(-m));
+            }
+            DemoAir::Perm => {
+                let main = builder.main();
+                let row = main.current_slice();
+                let a: AB::Expr = row[0].into();
+                let b: AB::Expr = row[1].into();
+                builder.push_local_interaction([
+                    (vec![a], Count::<AB::Expr>::from(1)),
+                    (vec![b], Count::<AB::Expr>::from(-1)),
+                ]);
+            }
         }
     }
 }
@@ -575,8 +757,20 @@ fn bump(h: &mut BTreeMap<String, u64>, k: &str) {
 
 struct Judged {
     native: Native,
+    /// full `Debug` text of the native error (batch targets put it after the variant tag)
+    native_full: String,
     circ: Circ,
     mode: &'static str,
+}
+
+/// `… OodEvaluationMismatch { index: Some(2) } …` → 2; `OodEvaluationMismatch` (uni) → 0
+fn ood_index(full: &str) -> Option<usize> {
+    let k = full.find("OodEvaluationMismatch")?;
+    let rest = &full[k..];
+    // the uni verifier has one instance and reports `index: None`
+    let Some(s) = rest.find("Some(") else { return Some(0) };
+    let digits: String = rest[s + 5..].chars().take_while(|c| c.is_ascii_digit()).collect();
+    digits.parse().ok()
 }
 
 /// Class string of a disagreement: direction + element class (leaf kind without the target
@@ -596,6 +790,8 @@ pub fn main(args: &crate::Args) {
     let per_kind = args.u64("per-kind", 1) as usize; // 0 = all positions
     let only = args.opt("only");
     let nvals = args.u64("values", 1) as usize;
+    // 0: subset per instance, 1: every forgery id, 2: also a seeded random delta per trace cell and more cells
+    let forge_all = args.u64("forge-all", 0);
     let out = args.str("out", "/tmp/p3r_c01");
     std::fs::create_dir_all(&out).unwrap();
     let mut cases = std::io::BufWriter::new(std::fs::File::create(format!("{out}/c01.cases")).unwrap());
@@ -655,6 +851,10 @@ pub fn main(args: &crate::Args) {
 
         // honest: native must accept, circuit must be buildable and satisfied
         let hn = (target.native)(&target.honest).unwrap_or(Native::Panic("honest proof does not deserialise".into()));
+        let hn = match hn {
+            Native::Reject(t) => Native::Reject(t.split('|').next().unwrap_or("").to_string()),
+            other => other,
+        };
         let built = catch_unwind(AssertUnwindSafe(|| (target.build)(&target.honest)))
             .unwrap_or_else(|p| Err(Circ::BuildPanic(panic_msg(p))));
         let (hc, runner) = match built {
@@ -717,7 +917,15 @@ pub fn main(args: &crate::Args) {
             } else {
                 catch_unwind(AssertUnwindSafe(|| runner(j))).unwrap_or_else(|p| Circ::RunPanic(panic_msg(p)))
             };
-            Some(Judged { native: n, circ: c, mode: if rebuild { "rebuilt" } else { "reused" } })
+            // `Native::Reject` of batch targets is `tag|full debug text`; split it here
+            let (n, native_full) = match n {
+                Native::Reject(t) => match t.split_once('|') {
+                    Some((tag, full)) => (Native::Reject(tag.to_string()), full.to_string()),
+                    None => (Native::Reject(t.clone()), t),
+                },
+                other => (other, String::new()),
+            };
+            Some(Judged { native: n, native_full, circ: c, mode: if rebuild { "rebuilt" } else { "reused" } })
         };
 
         let mut positions = 0u64;
@@ -744,7 +952,7 @@ pub fn main(args: &crate::Args) {
 
         // corpus first
         for (fname, v) in corpus.iter().filter(|(_, v)| v["target"].as_str() == Some(tname.as_str())) {
-            if v["honest"].as_bool() == Some(true) {
+            if v["honest"].as_bool() == Some(true) || v.get("forge").is_some() {
                 continue;
             }
             let path = path_from_json(&v["path"]);
@@ -838,7 +1046,112 @@ pub fn main(args: &crate::Args) {
                 }
             }
         }
+        // prover-side forgeries: proofs made by the adversarial prover for false statements. Every
+        // value in them is consistent with the transcript and the Merkle caps, so exactly the
+        // algebraic check that the lie violates decides (OOD identity / terminal sum).
+        let mut forged = 0u64;
+        let mut forge_refused = 0u64;
+        if let Some(forge) = &target.forge {
+            let fam = tname.split('/').next().unwrap_or("");
+            if let Some(d) = &target.drift {
+                violations.push(json!({"property": "C01", "kind": "campaign", "class": format!("forge-prover-drift:{fam}"),
+                    "detail": {"native": "", "circuit": "", "circuit_detail": d}, "replay": {"target": tname, "forge": "none"}}));
+            }
+            let mut ids: Vec<(String, Option<String>)> = corpus
+                .iter()
+                .filter(|(_, v)| v["target"].as_str() == Some(tname.as_str()))
+                .filter_map(|(f, v)| v["forge"].as_str().map(|id| (id.to_string(), Some(f.clone()))))
+                .collect();
+            if generate && target.drift.is_none() {
+                let mut sel = if forge_all >= 1 { target.forge_ids.clone() } else { forge_quick_subset(&target.forge_ids, &mut rng) };
+                if forge_all >= 2 {
+                    let p = field_p(&tname);
+                    let mut extra = vec![];
+                    for id in &sel {
+                        match ForgeSpec::parse(id) {
+                            Some(ForgeSpec::Trace(i, c, _)) => extra.push(format!("trace:{i}:{c}:{}", 2 + rng.below(p - 2))),
+                            Some(ForgeSpec::Perm(i, 0)) => extra.extend((0..8).map(|_| format!("perm:{i}:{}", rng.below(1 << 20)))),
+                            Some(ForgeSpec::Quot(i, 0)) => extra.extend((0..8).map(|_| format!("quot:{i}:{}", rng.below(1 << 20)))),
+                            _ => {}
+                        }
+                    }
+                    sel.extend(extra);
+                }
+                ids.extend(sel.into_iter().map(|id| (id, None)));
+            }
+            // checks seen decisive (native rejection names the check, both circuit modes reject)
+            let mut decisive_ood: std::collections::BTreeSet<usize> = Default::default();
+            let mut decisive_tsum = false;
+            let full_campaign = generate && target.drift.is_none();
+            for (id, from_corpus) in ids {
+                let kind = id.split(':').next().unwrap_or("").to_string();
+                let j = match catch_unwind(AssertUnwindSafe(|| forge(&id))).unwrap_or_else(|p| Err(panic_msg(p))) {
+                    Ok(j) => j,
+                    Err(_) => {
+                        forge_refused += 1;
+                        bump(&mut hist, &format!("forge-prover-refused:{fam}:{kind}"));
+                        continue;
+                    }
+                };
+                let (Some(a), Some(b)) = (judge(&j, true), judge(&j, false)) else { continue };
+                evaluations += 1;
+                distinct += 1;
+                forged += 1;
+                bump(&mut hist, &format!("forge:{fam}:{kind}:{}/{}", a.native.tag(), a.circ.tag()));
+                bump(&mut hist, &format!("forge-native:{}", a.native.tag()));
+                if samples.len() < 12 && forged <= 2 {
+                    samples.push(json!({"target": tname, "forge": id, "native": a.native.tag(), "circuit": a.circ.tag(),
+                        "circuit_mode": a.mode}));
+                }
+                if !a.circ.accepts() && !b.circ.accepts() {
+                    if let Native::Reject(r) = &a.native {
+                        if r.contains("TerminalSumNonZero") {
+                            decisive_tsum = true;
+                        }
+                        if let Some(i) = ood_index(&a.native_full) {
+                            decisive_ood.insert(i);
+                        }
+                    }
+                }
+                let mut hit = false;
+                for jd in [a, b] {
+                    if jd.native.accepts() != jd.circ.accepts() && !hit {
+                        hit = true;
+                        let class = if jd.circ.accepts() {
+                            format!("native-rejects-circuit-accepts:{fam}:forged-{kind}:{}",
+                                jd.native.tag().trim_start_matches("reject:"))
+                        } else {
+                            format!("native-accepts-circuit-rejects:{fam}:forged-{kind}:{}", jd.circ.tag())
+                        };
+                        violations.push(json!({"property": "C01", "kind": "forged-proof", "class": class,
+                            "detail": {"native": jd.native.tag(), "circuit": jd.circ.tag(), "circuit_detail": jd.circ.detail(),
+                                       "circuit_mode": jd.mode},
+                            "replay": {"target": tname, "forge": id}}));
+                    }
+                }
+                if hit {
+                    if let Some(f) = from_corpus {
+                        corpus_reproduced.push(f);
+                    }
+                }
+            }
+            // model correspondence of the check list (driver command `checks`)
+            if full_campaign {
+                writeln!(cases, "{}", target.shape.replacen("shape", "checks", 1)).unwrap();
+                let n_terminals = target.honest["proof"]["lookup_terminals"]
+                    .as_array()
+                    .map(|a| a.iter().filter(|t| !t.is_null()).count())
+                    .unwrap_or(0);
+                let ood = if decisive_ood.is_empty() {
+                    "-".to_string()
+                } else {
+                    decisive_ood.iter().map(|i| i.to_string()).collect::<Vec<_>>().join(",")
+                };
+                writeln!(imp, "chk ood={} tsum={}", ood, if decisive_tsum { n_terminals } else { 0 }).unwrap();
+            }
+        }
         per_target.push(json!({"target": tname, "native": hn.tag(), "circuit": hc.tag(), "leaves": all.len(),
+            "forged_proofs": forged, "forgeries_refused_by_prover": forge_refused,
             "kinds": by_kind.len(), "positions": positions, "shape_kinds": shape_kinds,
             "setup_s": (build_s * 100.0).round() / 100.0, "total_s": (t0.elapsed().as_secs_f64() * 100.0).round() / 100.0}));
     }
